@@ -201,6 +201,10 @@ theorem cov_step (s s' : CState) (e : CEv) (hi : Cov s) (h : cstep s e = some s'
     split at h
     · cases h; exact cov_pc hs _
     · cases h
+  case ret id ok =>
+    split at h
+    · cases h; exact ⟨hi.stash, hi.queue, hi.sent⟩
+    · cases h
 
 theorem cov_reachable (s : CState) (h : CReachable s) : Cov s := by
   induction h with
